@@ -87,6 +87,7 @@ fn run_case(seed: u64, idx: u64, _tier: Tier, out: &mut CaseOut) {
     p.id_permille = 30;
     p.edge_space = rng.chance(1, 2);
     p.odd_hrefs = rng.chance(1, 3);
+    p.empty_lists = rng.chance(1, 3);
     if rng.chance(1, 4) {
         p.uni_space_permille = 150;
     }
@@ -149,19 +150,54 @@ fn run_case(seed: u64, idx: u64, _tier: Tier, out: &mut CaseOut) {
             "all"
         }
     };
+    // the same rewrite without white space between the tags of empty block containers
+    // (used to attribute a difference, see `report`)
+    let variant_no_empty_gaps = {
+        let mut f2 = fmt.clone();
+        f2.no_gap_in_empty = true;
+        ast::serialize(&doc, &mut f2)
+    };
     let variant = ast::serialize(&doc, &mut fmt);
     if variant == base {
         out.inc("identical_sources");
         return;
     }
+    ALT_VARIANT.with(|v| *v.borrow_mut() = if variant_no_empty_gaps != variant { Some(variant_no_empty_gaps.clone()) } else { None });
     out.inc(&format!("rewrite:{}", kind_name));
     if kind == 5 {
         for k in ["space", "comments", "span", "block_gaps"] {
             out.inc(&format!("rewrite:{}", k));
         }
     }
-    let plain_cfg = if rng.chance(1, 2) { Cfg::plain() } else { Cfg::trivial() };
-    let rich_cfg = Cfg::rich();
+    let mut plain_cfg = if rng.chance(1, 2) { Cfg::plain() } else { Cfg::trivial() };
+    let mut rich_cfg = Cfg::rich();
+    // structural selectors count element children only: white space and comments between
+    // the tags must not shift them (not with span wrapping, which adds elements)
+    if kind != 2 && kind != 5 && rng.chance(1, 4) {
+        // (colour and generated content only: hiding whole blocks changes which tags are
+        // block neighbours, which is C18's subject)
+        let rules = [
+            "li:nth-child(odd) { color: #aa0000 }",
+            "li:nth-child(2) { color: #ff0000 }",
+            "p:nth-child(even) em { color: #00ff00 }",
+            "em:nth-child(1)::before { content: \"+\" }",
+            "li:last-child { color: #00aa00 }",
+            "li:last-child::after { content: \"$\" }",
+            "p:first-child { color: #0000ff }",
+            "dd:nth-child(2n) { color: #0000aa }",
+            "blockquote > p:nth-child(1)::before { content: \"%\" }",
+            "span:nth-child(-n+2)::after { content: \"~\" }",
+            "div:nth-child(3n+1) { color: #123456 }",
+        ];
+        let mut css = String::new();
+        for _ in 0..rng.range(1, 3) {
+            css.push_str(*rng.pick(&rules));
+            css.push('\n');
+        }
+        plain_cfg.css.push((Origin::User, css.clone()));
+        rich_cfg.css.push((Origin::User, css));
+        out.inc("pairs_with_structural_css");
+    }
     for _ in 0..3 {
         let w = pick_width(&mut rng, 100);
         // plain: strings
@@ -186,9 +222,23 @@ fn run_case(seed: u64, idx: u64, _tier: Tier, out: &mut CaseOut) {
         // rich: tagged lines
         // (text and annotations; on which side of a line break the zero-width marker of
         // a text-less id'd element lands is not text - marker placement is C14's subject)
-        let no_frags = |ls: Vec<Line>| -> Vec<Line> {
+        // (pieces that were only separated by a marker are merged again)
+        let no_frags = |ls: Vec<Line>| -> Vec<Line> { no_frags(ls) };
+        let _unused = |ls: Vec<Line>| -> Vec<Line> {
             ls.into_iter()
-                .map(|l| l.into_iter().filter(|p| !matches!(p, Piece::Frag(_))).collect())
+                .map(|l| {
+                    let mut out: Vec<Piece> = Vec::new();
+                    for p in l.into_iter().filter(|p| !matches!(p, Piece::Frag(_))) {
+                        if let (Some(Piece::Str { s: ps, tags: pt }), Piece::Str { s, tags }) = (out.last_mut(), &p) {
+                            if pt == tags {
+                                ps.push_str(s);
+                                continue;
+                            }
+                        }
+                        out.push(p);
+                    }
+                    out
+                })
                 .collect()
         };
         let a = render_lines(&rich_cfg, &base, w).map(no_frags);
@@ -204,6 +254,24 @@ fn run_case(seed: u64, idx: u64, _tier: Tier, out: &mut CaseOut) {
     }
 }
 
+fn no_frags(ls: Vec<Line>) -> Vec<Line> {
+    ls.into_iter()
+        .map(|l| {
+            let mut out: Vec<Piece> = Vec::new();
+            for p in l.into_iter().filter(|p| !matches!(p, Piece::Frag(_))) {
+                if let (Some(Piece::Str { s: ps, tags: pt }), Piece::Str { s, tags }) = (out.last_mut(), &p) {
+                    if pt == tags {
+                        ps.push_str(s);
+                        continue;
+                    }
+                }
+                out.push(p);
+            }
+            out
+        })
+        .collect()
+}
+
 trait KindOrText {
     fn kind_or_text(&self) -> String;
 }
@@ -217,6 +285,11 @@ impl KindOrText for Outcome<String> {
 }
 
 #[allow(clippy::too_many_arguments)]
+thread_local! {
+    /// (the variant without gaps in empty containers, if it differs from the variant)
+    static ALT_VARIANT: std::cell::RefCell<Option<Vec<u8>>> = const { std::cell::RefCell::new(None) };
+}
+
 fn report(
     out: &mut CaseOut,
     kind: &str,
@@ -236,11 +309,38 @@ fn report(
         let s = String::from_utf8_lossy(base);
         s.contains("<sup>") && (a.chars().any(|c| "⁰¹²³⁴⁵⁶⁷⁸⁹".contains(c)) != b.chars().any(|c| "⁰¹²³⁴⁵⁶⁷⁸⁹".contains(c)))
     };
-    let sig = if too_narrow {
+    // Is the difference due to white space written between the tags of an EMPTY block
+    // container (<div id=x> </div>, <ol>\n</ol>)?  Then the same rewrite without those
+    // gaps renders like the canonical source.
+    let empty_container = ALT_VARIANT.with(|v| {
+        v.borrow().as_ref().map(|alt| {
+            if cfg.deco == Deco::Rich {
+                let x = render_lines(cfg, alt, w).map(|l| format!("{:?}", no_frags(l)));
+                let y = render_lines(cfg, base, w).map(|l| format!("{:?}", no_frags(l)));
+                x == y
+            } else {
+                render_string(cfg, alt, w) == render_string(cfg, base, w)
+            }
+        })
+    }).unwrap_or(false);
+    if empty_container {
+        out.violate(
+            "ws-dependent:white-space-inside-block-without-content",
+            format!("rewrite '{}' changes the rendering at width {} only through white space inside a block element that has nothing to render", kind, w),
+            json!({"canonical": String::from_utf8_lossy(base), "rewritten": String::from_utf8_lossy(variant),
+                   "width": w, "config": cfg.describe(), "output_canonical": a, "output_rewritten": b}),
+        );
+        return;
+    }
+    // rewrites that split text nodes or add elements (the recorded findings need one)
+    let splits = matches!(kind, "comments" | "span" | "all" | "probe");
+    let sig = if too_narrow && splits {
         // size estimates are per text node: splitting a text node can change
         // whether a prefixed block is considered too narrow
         "ws-dependent:too-narrow-differs".to_string()
-    } else if sup_digits {
+    } else if too_narrow {
+        format!("ws-dependent:too-narrow-differs:{}", kind)
+    } else if sup_digits && splits {
         "ws-dependent:digit-superscript-through-span".to_string()
     } else if strike {
         "ws-dependent:inside-strikeout".to_string()
